@@ -146,8 +146,39 @@ func c16EveryAcceptedPacket(c *Ctx) {
 	}
 }
 
+// c16SendInterval: RFC 5880 6.8.7 - the transmit interval is the larger of the
+// local desired min TX interval and the REMOTE's required min RX interval (as
+// last received), jittered by computeInterval with the local detect multiplier.
+// Pacing by the local required-RX value instead starves a peer whose detection
+// time is shorter ("reach Up and stay Up").
+func c16SendInterval(c *Ctx) {
+	rule := "I1-send-interval"
+	sT := "(*router/bfd.Session)"
+	if v := c.View(sT + ".computeNextSendInterval"); v != nil {
+		ok := false
+		for _, ci := range v.Calls("router/bfd.computeInterval") {
+			a := ci.Args[0]
+			ok = a == "builtin:max(recv.desiredMinTXInterval, recv.remoteMinRxInterval)" ||
+				a == "builtin:max(recv.remoteMinRxInterval, recv.desiredMinTXInterval)"
+			ok = ok && ci.Args[1] == "uint(recv.DetectMult)"
+		}
+		c.Check(ok, rule, v.Name()+":interval", v.Fn.Pos(), "computeInterval(max(desiredMinTXInterval, remoteMinRxInterval), DetectMult, nil)")
+	}
+	// the remote value is what the peer announced
+	if v := c.View(sT + ".Run"); v != nil {
+		n, ok := 0, true
+		for _, st := range v.Stores("recv.remoteMinRxInterval") {
+			n++
+			ok = ok && strings.Contains(st.Val, "RequiredMinRxInterval") && !strings.Contains(st.Val, "recv.RequiredMinRxInterval")
+		}
+		c.Check(ok && n >= 1, rule, v.Name()+":remote-min-rx-from-peer", v.Fn.Pos(),
+			fmt.Sprintf("%d store(s) of remoteMinRxInterval, each from the received packet's RequiredMinRxInterval", n))
+	}
+}
+
 func runC16(c *Ctx) {
 	c16EveryAcceptedPacket(c)
+	c16SendInterval(c)
 	tr := c.Fn("router/bfd.transition")
 	run := c.View("(*router/bfd.Session).Run")
 	if tr == nil || run == nil {
